@@ -95,6 +95,24 @@ CLAIMED = {
         "compared with the model inside Coq.",
    ref="5/C03", note=TB + "the 'enough information' premise is met by construction of the generator (and reported per case); the solver is judged on its output.",
    technique="Coq proof (consistency => optimum, field identity) + ground-truth conformance over the option matrix"),
+ "C05": dict(
+   text="Proof over REGENERATED source text (Gen/GenVarTermsQ.v / GenVarTermsR.v: deriv_dict, var_fw_dict, var_bw_dict, deriv_dict2, var_w_dict of both calibrate "
+        "methods, translated on every run): (T21, over Q) for ANY number of acting splices and any symmetric covariance the term lists sum to "
+        "T_st^2 s_st + T_ast^2 s_ast + J' Cov J for tmpf_var, tmpb_var, tmpw_var (weights constant) and the single-ended variance with free or fixed alpha; "
+        "(T20, over R with Coquelicot) every generated sensitivity is the partial derivative of the temperature equation (gamma, st, ast, df/c, alpha, splice "
+        "loss, dalpha; forward and backward). Conformance: at every (x, time) of seeded results the reported variances equal the propagation of the reported "
+        "p_cov evaluated exactly (2^-30). Finding F13 (missing cross-covariances) was reported by this check and repaired.",
+   ref="5/C05", note=TB + "The R-side theorems depend on the standard library's real-number axioms (ClassicalDedekindReals.sig_forall_dec, sig_not_dec, "
+        "Classical_Prop.classic, FunctionalExtensionality.functional_extensionality_dep - as Print Assumptions lists them). The named covariance blocks "
+        "(hypothesis named_blocks_*) model get_params_from_pval_*; that model is tied to the code by the exact conformance test. Translator "
+        "vlib/translators/varterms.py.", technique="Coq proof over translator-regenerated variance terms (Q: propagation identity; R/Coquelicot: derivatives) + exact conformance"),
+ "C06": dict(
+   text="Proof over Q for all values: tmpw is the convex combination (vb Tf + vf Tb)/(vf+vb), lies between tmpf and tmpb, commutes with the Celsius shift; "
+        "tmpw_var_approx is positive and <= min(vf, vb); tmpw_var_lower <= tmpw_var whenever the parameter part is a non-negative quadratic form and the weights "
+        "sum to one (the dependency on C05: with F13's incomplete form the bound failed, as this check reported); a positive intensity part plus a non-negative "
+        "form is positive. Conformance: all six relations evaluated exactly at every (x, time) of seeded double-ended results.",
+   ref="5/C06", note=TB + "positive semi-definiteness of the reported p_cov is not proved (it is the solver's output); ordering tests carry a 2^-40 relative slack.",
+   technique="Coq proof of the inverse-variance mean algebra + exact relations on outputs via vm_compute"),
 }
 NA = {}
 ALL = [f"C{i:02d}" for i in range(1, 21)]
